@@ -1,6 +1,6 @@
 ----------------------------- MODULE MC_WasmGen -----------------------------
 (* Model-checking instances of WasmGen: the module template and the focused alphabets. *)
-EXTENDS WasmGen
+EXTENDS WasmGen, Interrupt
 
 CONSTANT Cfg
 
@@ -44,9 +44,10 @@ MGrow == [op |-> "memory.grow"]
      1  g : (i32, i32) -> i32   generated; declared locals (i32, i64)
      2  h : (i32) -> i32        helper: adds global 0 to its argument and increments global 0
      3  k : () -> ()            helper: global1 := global1 + 1
-   Types: 0 (i32,i32)->i32, 1 (i32)->i32, 2 ()->().  Table: [2, hole, 3, 1].  Globals: i32 7, i64 0.
+   Types: 0 (i32,i32)->i32, 1 (i32)->i32, 2 ()->(), 3 (i32)->i32 (duplicate of 1).  Table: [2, hole, 3, 1].  Globals: i32 7, i64 0.
    Memory: 1 page, at most 2.  Data at 0: 01 02 03 04 05 06 07 80 FF. *)
-TypesT == << [params |-> <<2, 2>>, results |-> <<2>>], [params |-> <<2>>, results |-> <<2>>], [params |-> <<>>, results |-> <<>>] >>
+TypesT == << [params |-> <<2, 2>>, results |-> <<2>>], [params |-> <<2>>, results |-> <<2>>], [params |-> <<>>, results |-> <<>>],
+            [params |-> <<2>>, results |-> <<2>>] >>   \* type 3 is structurally equal to type 1 (indirect calls compare types structurally)
 
 WrapperBody ==
   << C32(256), LGet(0), LGet(1), Call(1), Store(2, 4, 0),
@@ -62,10 +63,33 @@ TemplateT ==
                 [ty |-> 0, locals |-> <<2, 4>>, body |-> <<>>, host |-> FALSE, name |-> "g"],
                 [ty |-> 1, locals |-> <<>>, body |-> HBody, host |-> FALSE, name |-> "h"],
                 [ty |-> 2, locals |-> <<>>, body |-> KBody, host |-> FALSE, name |-> "k"] >>,
-   globals |-> << [t |-> 2, mut |-> TRUE, init |-> I32(7)], [t |-> 4, mut |-> TRUE, init |-> I64(0)] >>,
+   globals |-> << [t |-> 2, mut |-> TRUE, init |-> I32(7)], [t |-> 4, mut |-> TRUE, init |-> I64(0)],
+                  [t |-> 2, mut |-> FALSE, init |-> I32(3)] >>,
    pages |-> 1, maxPages |-> 2,
    table |-> <<2, -1, 3, 1>>,
    data |-> << [off |-> 0, bytes |-> <<1, 2, 3, 4, 5, 6, 7, 128, 255>>] >>]
+
+(* Template with a host import (C13): index 0 = env.hostf : (i32) -> i32, the others shifted by one *)
+WrapperBodyH ==
+  << C32(256), LGet(0), LGet(1), Call(2), Store(2, 4, 0),
+     C32(264), GGet(0), Store(2, 4, 0),
+     C32(272), GGet(1), Store(4, 8, 0),
+     C32(256), Load(2, 4, FALSE, 0), End >>
+TemplateH ==
+  [TemplateT EXCEPT
+     !.funcs = << [ty |-> 1, locals |-> <<>>, body |-> <<>>, host |-> TRUE, name |-> "hostf"],
+                  [ty |-> 0, locals |-> <<>>, body |-> WrapperBodyH, host |-> FALSE, name |-> "f"],
+                  [ty |-> 0, locals |-> <<2, 4>>, body |-> <<>>, host |-> FALSE, name |-> "g"],
+                  [ty |-> 1, locals |-> <<>>, body |-> HBody, host |-> FALSE, name |-> "h"],
+                  [ty |-> 2, locals |-> <<>>, body |-> KBody, host |-> FALSE, name |-> "k"] >>,
+     !.table = <<3, -1, 4, 2>>]
+HostQT == << I32(5), I32(0), I32(7), I32(1), I32(-1), I32(2) >>
+AlphaHost == { LGet(0), LGet(1), LSet(0), C32(1), C32(3), Call(0), Call(3), Bin(2, "add"), Drop,
+               Blk(2), Lop(0), Iff(0), Els, End, BrIf(0), Br(1), GGet(0), GSet(0), Store(2, 4, 300), Load(2, 4, FALSE, 300), CallInd(1) }
+
+(* design property of Interrupt.tla evaluated on every generated program *)
+InterruptTransparent ==
+  phase = "done" => \A a \in ArgSets : Transparent(Module, EntryIdx, a, HostQ, Fuel, 3)
 
 (* control flow and locals: the area where the engine's register allocation is intricate *)
 AlphaCtl == { LGet(0), LGet(1), LSet(0), LTee(0), C32(5), Bin(2, "add"), Drop,
@@ -74,24 +98,38 @@ AlphaCtl2 == { LGet(0), LGet(1), LSet(0), LSet(1), LTee(1), C32(1), Bin(2, "sub"
                Blk(2), Lop(0), Iff(2), Els, End, Br(0), Br(1), BrIf(0), BrTab(<<0, 1>>, 0) }
 AlphaLoop == { LGet(0), LGet(1), LSet(1), LTee(0), C32(1), C32(-1), Bin(2, "add"), EqzI(2), Drop,
                Blk(0), Lop(0), Lop(2), End, Br(0), BrIf(0), BrIf(1), GGet(0), GSet(0) }
+(* conditional branches to void labels whose being taken or not is observable afterwards *)
+AlphaBrIf == { LGet(0), LGet(1), C32(5), LSet(0), Blk(0), Lop(0), BrIf(0), BrIf(1), End, Ret }
+AlphaBrIf2 == { LGet(0), LGet(1), C32(5), LSet(0), Blk(0), BrIf(0), End }
 (* memory *)
 AlphaMem == { LGet(0), LGet(1), C32(0), C32(4), C32(65532), C32(65536), C32(-1), C64(-2),
               Load(2, 4, FALSE, 0), Load(2, 1, TRUE, 7), Load(2, 2, FALSE, 65534), Load(4, 8, FALSE, 1), Load(4, 4, TRUE, 5),
               Store(2, 4, 0), Store(2, 1, 65535), Store(4, 8, 65528), Store(2, 2, 4),
               MSize, MGrow, Drop, Cv("wrap"), End }
 (* calls *)
-AlphaCall == { LGet(0), LGet(1), C32(0), C32(1), C32(2), C32(3), C32(4), Call(2), Call(3), CallInd(1), CallInd(2), CallInd(0),
+AlphaCall == { LGet(0), LGet(1), C32(0), C32(1), C32(2), C32(3), C32(4), Call(2), Call(3), CallInd(1), CallInd(2), CallInd(0), CallInd(3),
                Drop, Bin(2, "add"), GGet(0), LSet(0), End, Blk(2), BrIf(0) }
 (* 64-bit locals and conversions *)
 AlphaI64 == { LGet(0), LGet(3), LSet(3), LTee(3), C64(-1), C64(5), Cv("extend_s"), Cv("extend_u"), Cv("wrap"),
               Bin(4, "add"), Bin(4, "mul"), Bin(4, "shr_s"), Rel(4, "lt_s"), EqzI(4), Un(4, "clz"), GGet(1), GSet(1), Drop, End,
               Cv("i64.extend8_s"), Cv("i32.extend16_s") }
 
+(* validation: mixed types, out-of-range indices, immutable global, sign extension, polymorphic stack *)
+AlphaVal == { C32(1), C64(1), LGet(0), LGet(3), LGet(4), LSet(0), LSet(3), LTee(3), Bin(2, "add"), Bin(4, "add"), Rel(4, "eq"), EqzI(4),
+              Drop, Sel, Blk(0), Blk(2), Blk(4), Iff(2), Iff(0), Els, End, Br(0), Br(1), Br(2), BrIf(0), BrIf(1),
+              BrTab(<<0, 1>>, 0), Ret, Unr, Call(2), Call(3), Call(4), CallInd(1), CallInd(4),
+              Load(4, 8, FALSE, 0), Store(2, 4, 0), GGet(2), GSet(2), GSet(1), GGet(3), Cv("wrap"), Cv("extend_u"),
+              Cv("i32.extend8_s"), MGrow, Nop }
+
 AlphabetOf ==
   CASE Cfg = "ctl" -> AlphaCtl [] Cfg = "ctl2" -> AlphaCtl2 [] Cfg = "loop" -> AlphaLoop
+    [] Cfg = "brif" -> AlphaBrIf
+    [] Cfg = "brif2" -> AlphaBrIf2
     [] Cfg = "mem" -> AlphaMem [] Cfg = "call" -> AlphaCall [] Cfg = "i64" -> AlphaI64
-    [] Cfg \in {"witness", "alu"} -> {}
-    [] Cfg = "all" -> AlphaCtl \cup AlphaCtl2 \cup AlphaLoop \cup AlphaMem \cup AlphaCall \cup AlphaI64
+    [] Cfg \in {"witness", "alu", "struct"} -> {}
+    [] Cfg = "val" -> AlphaVal
+    [] Cfg = "host" -> AlphaHost
+    [] Cfg = "all" -> AlphaCtl \cup AlphaCtl2 \cup AlphaLoop \cup AlphaMem \cup AlphaCall \cup AlphaI64 \cup AlphaBrIf
 
 NoHostQ == <<>>
 
@@ -130,8 +168,31 @@ ALUBodies(dummy) ==   \* parameterised so that TLC does not evaluate it eagerly 
   \cup { Res64(<< CV(2, a), Cv(n) >>) : a \in B32, n \in {"extend_s", "extend_u"} }
   \cup { Res32(<< CV(2, a), Cv(n) >>) : a \in B32, n \in {"i32.extend8_s", "i32.extend16_s"} }
   \cup { Res64(<< CV(4, a), Cv(n) >>) : a \in B64, n \in {"i64.extend8_s", "i64.extend16_s", "i64.extend32_s"} }
+(* structured programs: control skeletons whose holes are filled from small snippet sets; every
+   combination the validator admits.  Reaches shapes (if/else with a transfer in one arm, block with
+   a conditional exit, counting loop, br_table over nested blocks, value-carrying if) that need more
+   instructions than the flat enumerations can afford. *)
+Snip == { <<>>, <<Nop>>, << C32(5), LSet(0) >>, << LGet(1), LSet(0) >>, << Br(0) >>, << Br(1) >>, << C32(9), Ret >>,
+          << LGet(0), BrIf(0) >>, << GGet(0), C32(1), Bin(2, "add"), GSet(0) >>, << Call(3) >>,
+          << C32(300), LGet(0), Store(2, 4, 0) >>, << LGet(0), C32(1), Bin(2, "add"), LSet(0) >> }
+VSnip == { << C32(5) >>, << LGet(0) >>, << LGet(1), C32(2), Bin(2, "mul") >>, << C32(1), Ret >>, << C32(7), Br(0) >>,
+           << GGet(0) >>, << C32(300), Load(2, 4, FALSE, 0) >>, << LGet(0), Call(2) >> }
+Tails == { << LGet(0), End >>, << GGet(0), End >>, << C32(300), Load(2, 4, FALSE, 0), End >>, << LGet(1), End >> }
+Conds == { << LGet(0) >>, << LGet(1) >>, << LGet(0), EqzI(2) >> }
+StructBodies(dummy) ==
+  { c \o << Iff(0) >> \o a \o << Els >> \o b \o << End >> \o t : c \in Conds, a \in Snip, b \in Snip, t \in Tails }
+  \cup { c \o << Iff(0) >> \o a \o << End >> \o t : c \in Conds, a \in Snip, t \in Tails }
+  \cup { << Blk(0) >> \o a \o c \o << BrIf(0) >> \o b \o << End >> \o t : c \in Conds, a \in Snip, b \in Snip, t \in Tails }
+  \cup { << Lop(0) >> \o a \o << LGet(1), C32(-1), Bin(2, "add"), LTee(1), BrIf(0), End >> \o t : a \in Snip, t \in Tails }
+  \cup { << Blk(0), Blk(0) >> \o c \o << BrTab(<<0, 1>>, 1) >> \o a \o << End >> \o b \o << End >> \o t : c \in Conds, a \in Snip, b \in Snip, t \in Tails }
+  \cup { c \o << Iff(2) >> \o a \o << Els >> \o b \o << End, End >> : c \in Conds, a \in VSnip, b \in VSnip }
+  \cup { c \o << Iff(2) >> \o a \o << Els >> \o b \o << End, LGet(0), Bin(2, "add"), End >> : c \in Conds, a \in VSnip, b \in VSnip }
+  \cup { << Blk(2) >> \o a \o c \o << Iff(0) >> \o b \o << End >> \o v \o << End, End >> : c \in Conds, a \in Snip, b \in Snip, v \in VSnip }
+
 WellTyped(b) == \A i \in 1..Len(b) : (b[i].op = "const" => Len(b[i].v) = b[i].t)
-FixedBodies == IF Cfg = "witness" THEN Witnesses ELSE {b \in ALUBodies(0) : WellTyped(b)}
+FixedBodies == IF Cfg = "witness" THEN Witnesses
+               ELSE IF Cfg = "struct" THEN {b \in StructBodies(0) : ValidBody(GenCtx, b)}
+               ELSE {b \in ALUBodies(0) : WellTyped(b)}
 FInit == body \in FixedBodies /\ vs = VInit(2) /\ phase = "done"
 FSpec == FInit /\ [][UNCHANGED gvars]_gvars
 ArgsT == { <<I32(10), I32(0)>>, <<I32(10), I32(1)>>, <<I32(0), I32(7)>>, <<I32(-1), I32(3)>> }
